@@ -212,7 +212,7 @@ def run(ctx):
     ctx.rule = ('input = small source set analysed under all 64 settings (or chains); non-trivial = the runs produced >=2 '
                 'distinct finding multisets and >=1 non-error finding, i.e. the gate really opened and closed')
     _replay_known(ctx)
-    n = ctx.n(30, 600)
+    n = ctx.n(30, 400)
     inputs = make_inputs(ctx, n)
     pmap(lambda t: _input(ctx, t[0], t[1], True), list(enumerate(inputs)), workers=12)
     if not ctx.quick():
